@@ -328,3 +328,38 @@ Fixpoint cmd_ids_ok (tbl : table) (c : cmd) : bool :=
 Definition script_ok (tbl : table) (main : list cmd) : bool :=
   forallb body_ok tbl && forallb (fun p => forallb (bcmd_ids_ok tbl) (snd p)) tbl
   && forallb cmd_plain main && forallb subs_ok main && forallb (cmd_ids_ok tbl) main.
+
+(* ---- the class of the known finding C11-retrap-pending, on traces --------------------- *)
+(* the event gives a new command to a signal that has a delivery outstanding *)
+Definition retrap_ev (m : mon) (e : ev) : bool :=
+  match e with
+  | EMark sg a _ =>
+      is_body a && match owed_of (m_owed m) sg with OYes => true | _ => false end
+  | _ => false
+  end.
+
+(* the bookkeeping of the process that the next event belongs to (a subshell
+   that starts with this event has nothing outstanding) *)
+Definition event_mon (t : top) (p : N) : option mon :=
+  if N.eqb p 0 then
+    match finish_child t with inl t1 => Some (t_par t1) | inr _ => None end
+  else
+    match t_child t with
+    | Some (q, cm) => if N.eqb q p then Some cm else None
+    | None => None
+    end.
+
+Fixpoint retrap_free_from (tbl : table) (t : top) (l : list event) : bool :=
+  match l with
+  | [] => true
+  | (p, e) :: l =>
+      negb (match event_mon t p with Some m => retrap_ev m e | None => false end)
+      && match top_event false tbl t (p, e) with
+         | inl t' => retrap_free_from tbl t' l
+         | inr _ => true
+         end
+  end.
+
+(* no event of the trace is of that class *)
+Definition trace_retrap_free (tbl : table) (trace : list event) : bool :=
+  retrap_free_from tbl top_init trace.
